@@ -18,11 +18,17 @@ import (
 
 var segs = []string{"a", "b", "aa", "l", "d", "..", "."}
 
+var linkTargets = []string{"a", "b", "aa", "l", "d", ".", "..", "a/b", "../d", "l/../a", "d/../a", "./l/b"}
+
 func randPath(r *rand.Rand) string {
 	n := 1 + r.Intn(3)
 	var parts []string
 	for i := 0; i < n; i++ {
 		parts = append(parts, segs[r.Intn(len(segs))])
+	}
+	// a trailing "." or ".." component is outside the virtual OS's model (see vos.go: walk)
+	for parts[n-1] == "." || parts[n-1] == ".." {
+		parts[n-1] = segs[r.Intn(5)]
 	}
 	return strings.Join(parts, "/")
 }
@@ -62,10 +68,15 @@ func TestVosAgainstOS(t *testing.T) {
 		r := rand.New(rand.NewSource(int64(seq)))
 		realRoot := t.TempDir()
 		realRoot, _ = filepath.EvalSymlinks(realRoot)
+		// the sandbox is nested so that ".." through symbolic links (physical resolution) stays
+		// within directories that look the same on both sides
+		realRoot = filepath.Join(realRoot, "s1/s2/s3/s4")
+		os.MkdirAll(realRoot, 0o755)
 		v := New()
-		v.MkdirAll("/root", 0o755)
-		rp := func(p string) string { return filepath.Join(realRoot, p) }
-		vp := func(p string) string { return "/root/" + p }
+		v.MkdirAll("/sb/s1/s2/s3/s4", 0o755)
+		// joined without cleaning: "l/.." must reach the kernel (and the virtual OS) as written
+		rp := func(p string) string { return realRoot + "/" + p }
+		vp := func(p string) string { return "/sb/s1/s2/s3/s4/" + p }
 		// keep operations inside the sandbox: a path that lexically leaves it is skipped
 		inside := func(p string) bool {
 			c := filepath.Clean("/" + p)
@@ -103,7 +114,7 @@ func TestVosAgainstOS(t *testing.T) {
 				got, want = class(v.WriteFile(vp(p), data, 0o644)), class(os.WriteFile(rp(p), data, 0o644))
 			case 3:
 				// symlink with a relative target inside the sandbox
-				target := segs[r.Intn(5)]
+				target := linkTargets[r.Intn(len(linkTargets))]
 				got, want = class(v.Symlink(target, vp(p))), class(os.Symlink(target, rp(p)))
 			case 4:
 				got, want = class(v.Remove(vp(p))), class(os.Remove(rp(p)))
